@@ -7,25 +7,19 @@ namespace Qryn.LogQL
 open Qryn Qryn.Sql
 
 /-- the queries the plan-level theorem covers: the range aggregation is rate / count_over_time / bytes_rate /
-    bytes_over_time (no unwrap), its range a positive whole number of milliseconds, at most 63 stream matchers, and a
-    vector aggregation (if any) has a grouping clause and is sum / min / max / avg / count -/
+    bytes_over_time (no unwrap), its range positive (any unit down to nanoseconds), at most 63 stream matchers; any vector
+    aggregation (sum / min / max / avg / count / stddev / stdvar, with or without grouping clause) -/
 def supported (q : MetricQuery) : Bool :=
   (match q.rangeAgg.kind with | .lra _ => true | .unwrap _ _ => false) &&
-  (match q.agg? with
-   | none => true
-   | some a => (chosenGrouping a.byPrefix a.bySuffix).isSome && a.fn != .stddev && a.fn != .stdvar) &&
-  decide (q.rangeAgg.durNs % 1000000 = 0) && decide (0 < q.rangeAgg.durNs) && decide (q.rangeAgg.sel.matchers.length ≤ 63)
+  decide (0 < q.rangeAgg.durNs) && decide (q.rangeAgg.sel.matchers.length ≤ 63)
 
 /-- the unwrapped range aggregations the plan-level theorem `plan_metric_correct_unwrap` covers: rate / sum / avg / min /
     max / first / last_over_time over `| unwrap <label>` (with or without grouping clause), same side conditions -/
 def supportedU (q : MetricQuery) : Bool :=
   (match q.rangeAgg.kind with
-   | .unwrap fn _ => fn != UnwrapFn.stdvarOT && fn != UnwrapFn.stddevOT
+   | .unwrap _ _ => true
    | .lra _ => false) &&
-  (match q.agg? with
-   | none => true
-   | some a => (chosenGrouping a.byPrefix a.bySuffix).isSome && a.fn != .stddev && a.fn != .stdvar) &&
-  decide (q.rangeAgg.durNs % 1000000 = 0) && decide (0 < q.rangeAgg.durNs) && decide (q.rangeAgg.sel.matchers.length ≤ 63)
+  decide (0 < q.rangeAgg.durNs) && decide (q.rangeAgg.sel.matchers.length ≤ 63)
 
 /-- the database with the `samples` table read in timestamp order (ascending when the request is forward): the plan of
     an unwrapped range aggregation orders `main` by timestamp before it joins the labels and groups -/
@@ -68,12 +62,7 @@ def planClass (o : Oracles) (c : MCtx) (d : LokiDb) (q : MetricQuery) : String :
     let why :=
       match q.rangeAgg.kind with
       | .unwrap _ _ => "unwrap"
-      | .lra _ =>
-        match q.agg? with
-        | some a =>
-          if (chosenGrouping a.byPrefix a.bySuffix).isNone then "agg-without-grouping"
-          else if a.fn == AggFn.stddev || a.fn == AggFn.stdvar then "stddev-stdvar" else "other"
-        | none => "other"
+      | .lra _ => "other"
     s!"searched:{why}:{shapeName q}"
 
 end Qryn.LogQL
